@@ -705,9 +705,11 @@ pub fn size_values(len: usize, cap: usize) -> Vec<usize> {
             v.push((b as i128 + d as i128) as usize);
         }
     }
-    let lim = 1usize << 56;
-    for d in -3i64..=2 {
-        v.push((lim as i128 + d as i128) as usize);
+    if usize::BITS > 56 {
+        let lim = 1u128 << 56;
+        for d in -3i64..=2 {
+            v.push((lim as i128 + d as i128) as usize);
+        }
     }
     let im = isize::MAX as usize;
     for d in -2i64..=2 {
